@@ -369,7 +369,65 @@ class C15:
                     ctx.bad("R15.3", file, fname, f"samplerate -> step {show(v2)[:40] if v2 else 'missing'}", "with a samplerate the step must be 1 / samplerate", s.node.lineno)
 
 
+def check_axes(ctx: Ctx):
+    """R15.7: the arrays name their axes in the order the data has them -- (time, channel) for audio, (frequency, time, channel) for
+    a spectrogram -- and every named axis gets the coordinate variable of its own kind (a time axis from a time constructor, a
+    frequency axis from a frequency constructor)."""
+    def axis_name(t):
+        if t[0] == "const" and isinstance(t[1], str):
+            return t[1]
+        if t[0] == "attr" and t[2] == "value" and t[1][0] == "attr" and t[1][1][0] == "global" and t[1][1][1].endswith(":Dimensions"):
+            return t[1][2]
+        return None
+    expected = {("soundevent.audio.io", "load_recording"): ("time", "channel"), ("soundevent.audio.io", "load_clip"): ("time", "channel"),
+                ("soundevent.audio.spectrograms", "compute_spectrogram"): ("frequency", "time", "channel")}
+    for (modname, fname), want in expected.items():
+        s = ctx.summ.of_func(modname, fname)
+        file = s.module.relpath
+        site = f"{file}:{s.node.lineno} {fname}"
+        das = [x for r in s.returns for x in walk(r.term) if x[0] == "call" and x[1] == ("ext", "xarray.DataArray")]
+        if len(das) != 1:
+            ctx.undec("R15.7", site, f"{len(das)} xr.DataArray constructions in the returned value")
+            continue
+        kw = callkw(das[0])
+        coords = kw.get("coords")
+        keys = None
+        if coords is not None and coords[0] == "dict":
+            keys = [(axis_name(k), v) for k, v in coords[1] if isinstance(k, tuple)]
+        dims = kw.get("dims", das[0][2][2] if len(das[0][2]) > 2 else None)
+        names = None
+        if dims is not None and dims[0] == "call" and dims[1] in (("builtin", "tuple"), ("builtin", "list")) and len(dims[2]) == 1:
+            inner = dims[2][0]
+            if inner[0] == "call" and inner[1][0] == "attr" and inner[1][2] == "keys" and not inner[2]:
+                inner = inner[1][1]
+            if inner[0] == "dict" and inner == coords and keys is not None:
+                dims = None  # the axis names are taken from the coordinate mapping itself, in its order
+        if dims is not None and dims[0] in ("tuple", "list"):
+            names = tuple(axis_name(x) for x in dims[1])
+        elif dims is None and keys is not None:
+            names = tuple(k for k, _ in keys)  # xarray takes the order of the coordinate mapping
+        if names is None or None in names:
+            ctx.undec("R15.7", site, f"cannot read the axis names of the returned array: dims={show(dims)[:60] if dims else '-'}")
+        elif names != want:
+            ctx.bad("R15.7", file, fname, f"dims={names}",
+                    f"{fname} names the axes of its array {names}; the data it holds is laid out {want}: every coordinate is attached to "
+                    f"the wrong axis (or the construction fails when the axis lengths differ)", s.node.lineno, witness={"dims": list(names), "data_layout": list(want)})
+        else:
+            ctx.ok("R15.7", site, f"axes named {want}, the layout of the data")
+        for k, v in keys or []:
+            if k in ("time", "frequency") and v[0] == "call" and v[1][0] == "global" and v[1][2] == "func":
+                ctor = v[1][1].split(":")[1]
+                other = "frequency" if k == "time" else "time"
+                if other in ctor and k not in ctor:
+                    ctx.bad("R15.7", file, fname, f"coords[{k!r}] = {ctor}(...)",
+                            f"{fname} gives the {k} axis a coordinate variable built by {ctor}: the {k} axis carries {other} values and units",
+                            s.node.lineno)
+                else:
+                    ctx.ok("R15.7", site, f"{k} axis <- {ctor}(...)")
+
+
 def run(ctx: Ctx):
+    ctx.rule("R15.7", "axes are named in the layout of the data; every axis gets the coordinate variable of its own kind", 5)
     ctx.rule("R15.1", "clip offset/length by floor, file read at that offset, axis from the snapped offset", 5)
     ctx.rule("R15.6", "the seek position cannot lie beyond the last frame", 1)
     ctx.rule("R15.2", "seek before read; frames=samples; 2-D; zero fill; every path returns the read frames", 5)
@@ -381,6 +439,7 @@ def run(ctx: Ctx):
     c.check_spectrogram()
     c.check_resample()
     c.check_time_dim_ctor()
+    check_axes(ctx)
     # the clip / recording axes are built by create_time_range -> create_range_dim (anchored file arrays/dimensions.py)
     from .c16 import C16
     with ctx.delegated("C16/"):
